@@ -11,7 +11,10 @@ MANIFEST = dict(
          "an unapproved, never seen hash is covered by incoming value in the same update).  Invariant by induction over the "
          "history; the validate-then-apply pairing of each request is modelled in code order.  The model is run against a real "
          "Node with 2-3 real channels (real signatures, HTLCs, keysend approvals, restarts from the store) on every run and a "
-         "monitor recomputes the in-flight values from the accepted commitment contents.",
+         "monitor recomputes the in-flight values from the accepted commitment contents.  Props/Joint.v restates C06 (and "
+         "C01-C03) over joint histories of Model/Joint.v, where the enforcement state machines of all channels and the "
+         "ledger run together and the payment verdict of every update is computed instead of supplied; the same histories are "
+         "compared with that model too (reply, ledger, and every channel's enforcement state in memory and in the store).",
     design="§4 C06",
     note=lib.TB + "Assumes approvals arrive before the payment is attempted (fresh_history) — the tolerance for uninvoiced hashes "
          "with an existing payment record (issue 331) is modelled and lies outside the property.  Amounts stay far below 2^64/1000 "
@@ -24,6 +27,10 @@ def run(res):
     quick = res.tier == "quick"
     lib.proof_stage(res, "C06.v", "Props.C06",
                     ["C06_no_overpay", "C06_ledger_is_in_flight_value", "C06_unbacked_refused", "C06_nonvacuous"])
+    # the same theorems (and C01-C03) over joint histories of the whole node, where the payment verdict of a
+    # commitment update is computed from the ledger and the enforcement verdict from the counters
+    lib.extra_props_stage(res, "Joint.v", ["J_C01_secret_needs_successor", "J_C02_signed_and_revoked_disjoint",
+                                          "J_C03_resign_same", "J_C06_no_overpay"])
     cov = res.coverage
     n = 150 if quick else 1500
     r = lib.run_harness("pay", "run", res.seed, n, res.tier, timeout=3000)
@@ -43,6 +50,19 @@ def run(res):
                           "the model and no longer carry over",
                           {"correspondence": "pay", "theorems": ["C06_no_overpay", "C06_unbacked_refused"],
                            "first_difference_at_step": d, "history": c["ops"], "coq_case": c["coq"]}, has_input=False)
+    # joint correspondence: the same histories with explicit numbers, points and content identities against
+    # Model/Joint.v -- reply, ledger and the enforcement state (memory and store) of every channel after every request
+    jcases = [c for c in cases if c.get("coq_joint")][: (70 if quick else 700)]
+    jfails = lib.coq_failures(["Model.JointCheck"], "joint_case", "check_joint", [c["coq_joint"] for c in jcases],
+                              "joint_c06", shards=16, timeout=3000)
+    if not mon:
+        for i in jfails[:2]:
+            c = jcases[i]
+            d = lib.coq_eval(["Model.JointCheck"], "joint_first_diff (%s)" % c["coq_joint"], "joint_show")
+            res.violation("the real node disagrees with Model.Joint (correspondence joint: enforcement state machines and "
+                          "payment ledger together); the theorems of Props/Joint.v are about the model and no longer carry over",
+                          {"correspondence": "joint", "theorems": ["J_C06_no_overpay", "J_C01_secret_needs_successor"],
+                           "first_difference_at_step": d, "history": c["ops"], "coq_case": c["coq_joint"]}, has_input=False)
     nontrivial = set()
     for c in cases:
         kinds = {(o["op"] if isinstance(o["op"], str) else o["op"][0], o["ok"]) for o in c["ops"]}
@@ -61,7 +81,9 @@ def run(res):
         "samples": [{"channels": cases[0]["nch"], "ops": cases[0]["ops"]}],
         "traces_validated_against_impl": len(cases),
         "requests_replayed": sum(len(c["ops"]) for c in cases),
-        "correspondence_disagreements": len(fails),
+        "correspondence_disagreements": len(fails) + len(jfails),
+        "joint_histories_compared": len(jcases),
+        "joint_requests_replayed": sum(c.get("joint_ops", 0) for c in jcases),
         "monitor_failures": len(mon),
         "op_outcome_distribution": r.get("STATS", []),
     })
